@@ -46,6 +46,8 @@ def rand_wire(rnd, special, layers, vias):
             v = rnd.choice(vias)
             if special:
                 do = [rnd.randint(1, 3), rnd.randint(1, 3), rnd.choice([10, 20, 35]), rnd.choice([10, 15, 40])] if rnd.random() < 0.5 else []
+                if do and rnd.random() < 0.04:
+                    do[rnd.randrange(2)] = rnd.randint(257, 300)        # scale: an array with more than 256 vias in a row
                 elems.append(dict(v=True, x=0, y=0, ext=-1, name=v, orient='', do=do))
             else:
                 elems.append(dict(v=True, x=0, y=0, ext=-1, name=v, orient=rnd.choice(ORI) if rnd.random() < 0.5 else '', do=[]))
@@ -90,6 +92,24 @@ def make_file(rnd):
     for k in range(rnd.randint(1, 4)):
         d['nets'].append(dict(name='n%d' % k, pins=[['u%d' % rnd.randint(0, 3), rnd.choice(['A', 'Y'])] for _ in range(rnd.randint(1, 3))] + ([['PIN', 'a0']] if rnd.random() < 0.3 else []),
                               use='SIGNAL', wires=[rand_wire(rnd, False, layers, vias) for _ in range(rnd.randint(0, 3))]))
+    if rnd.random() < 0.3:
+        # scale: coordinates of real designs (database units up to 10^9; beyond 16-bit and float32-exact ranges)
+        S = rnd.choice([1000, 100000, 100003])
+        d['die'] = [[x * S, y * S] for x, y in d['die']]
+        for r in d['rows']:
+            r['x'], r['y'] = r['x'] * S, r['y'] * S
+        for t in d['tracks']:
+            t['start'] *= S
+        for o in d['comps'] + d['pins']:
+            o['x'], o['y'] = o['x'] * S, o['y'] * S
+        for n in d['spnets'] + d['nets']:
+            for w in n['wires']:
+                for e in w['elems']:
+                    if not e['v']:
+                        e['x'] = e['x'] * S if e['x'] >= 0 else e['x']
+                        e['y'] = e['y'] * S if e['y'] >= 0 else e['y']
+                    elif e['do']:
+                        e['do'][2], e['do'][3] = e['do'][2] * S, e['do'][3] * S
     return d
 
 
